@@ -228,10 +228,22 @@ add({"name": "candidate_hints", "file": ID,
                (r"std::optional<int> sides_hint;", "struct opt_int sides_hint = { 0, 0 };", 1),
                (r"std::string base\(name\);", "struct NameM base = name;", "=0or1"),
                (r"DFS::stringutil::remove_suffix\(&(\w+), (\"[^\"]*\")\);", r"remove_suffix_model(&\1, \2);", ">=0"),
-               (r"DFS::stringutil::ends_with\((\w+), (\"[^\"]*\")\)", r"ends_with_model(&\1, \2)", ">=8"),
-               (r"(\w+_hint) = DFS::Encoding::(\w+);", r"{ \1.has = 1; \1.val = Encoding_\2; }", ">=2"),
-               (r"(\w+_hint) = (false|true|\d+);", r"{ \1.has = 1; \1.val = \2; }", ">=3")],
+               (r"DFS::stringutil::ends_with\((\w+), (\"[^\"]*\")\)", r"ends_with_model(&\1, \2)", ">=1"),
+               (r"(\w+_hint) = DFS::Encoding::(\w+);", r"{ \1.has = 1; \1.val = Encoding_\2; }", ">=0"),
+               (r"(\w+_hint) = (false|true|\d+);", r"{ \1.has = 1; \1.val = \2; }", ">=0")],
      "dropped": []})
+
+# ---- stringutil.cc (C10 i: the ".gz" is taken off the END of the name; C04/C13: the suffix tests of the hints) ----------------
+add({"name": "su_ends_with", "file": "dfs/stringutil.cc", "anchor": r"bool ends_with\(const std::string & s, const std::string& suffix\)",
+     "sig": "static bool su_ends_with(const struct cstr *s_, const struct cstr *suffix_)",
+     "rules": [(r"suffix\.size\(\)", "suffix_->n", ">=1"), (r"\bs\.size\(\)", "s_->n", ">=1"),
+               (r"std::equal\(suffix\.rbegin\(\), suffix\.rend\(\), s\.rbegin\(\)\)", "rev_equal_model(suffix_, s_)", 1)]})
+add({"name": "su_remove_suffix", "file": "dfs/stringutil.cc", "anchor": r"bool remove_suffix\(std::string\* s, const std::string& suffix\)",
+     "sig": "static bool su_remove_suffix(struct cstr *s, const struct cstr *suffix_)",
+     "rules": [(r"suffix\.size\(\)", "suffix_->n", ">=1"), (r"\bs->size\(\)", "s->n", ">=1"),
+               (r"std::equal\(suffix\.rbegin\(\), suffix\.rend\(\), s->rbegin\(\)\)", "rev_equal_model(suffix_, s)", 1),
+               (r"s->find\(suffix\)", "cstr_find_model(s, suffix_)", ">=0"),
+               (r"s->erase\(((?:[^();]|\([^()]*\))*)\);", r"cstr_erase_model(s, \1);", 1)]})
 
 # ---- driveselector.cc / storage.cc (C16): SurfaceSelector is `unsigned int d_` by value -----------
 DS = "dfs/driveselector.cc"
@@ -649,7 +661,7 @@ add({"name": "info_line", "file": "dfs/dfs_catalog.cc",
      "pre": "#define os (&os_obj)\n", "post": "#undef os\n",
      "rules": [(r"std::ostream::sentry s\(outer_os\);", "/* sentry dropped */", 1), (r"if \(s\)", "if (1)", 1),
                (r"std::ostringstream os;", "os_init(&os_obj);  /* ostringstream os: fresh stream, default format state */", 1),
-               (r"DFS::sign_extend\(", "sign_extend(", 2),
+               (r"DFS::sign_extend\(", "sign_extend(", ">=0"),
                (r"entry\.load_address\(\)", "CatalogEntry_load_address(entry)", 1), (r"entry\.exec_address\(\)", "CatalogEntry_exec_address(entry)", 1),
                (r"entry\.directory\(\)", "CatalogEntry_directory(entry)", 1), (r"entry\.name\(\)", "CSTR(CatalogEntry_name(entry))", 1),
                (r"entry\.is_locked\(\)", "CatalogEntry_is_locked(entry)", 1), (r"entry\.file_length\(\)", "CatalogEntry_file_length(entry)", 1),
@@ -713,7 +725,7 @@ add({"name": "create_inf_file", "file": "dfs/cmd_extract_files.cc",
      "anchor": r"bool create_inf_file\(const string& name,\s*unsigned long crc,\s*const DFS::CatalogEntry& entry\)",
      "sig": "static bool create_inf_file(unsigned long crc, const struct CatalogEntry *entry)",
      "pre": "#define inf_file (&os_obj)\n", "post": "#undef inf_file\n",
-     "rules": [(r"DFS::sign_extend\(", "sign_extend(", 2),
+     "rules": [(r"DFS::sign_extend\(", "sign_extend(", ">=0"),
                (r"entry\.load_address\(\)", "CatalogEntry_load_address(entry)", 1), (r"entry\.exec_address\(\)", "CatalogEntry_exec_address(entry)", 1),
                (r"std::ofstream inf_file\(name, std::ofstream::out\);", "os_init(inf_file); inf_open(inf_file);  /* the ofstream is opened on the given name */", 1),
                (r"!inf_file\.good\(\)", "inf_file->bad", ">=0"),
@@ -800,6 +812,43 @@ add({"name": "show_titles_loop", "file": "dfs/cmd_show_titles.cc",
                (r"error\.empty\(\)", "(!ST.error_set)", ">=0"), (r"error\.clear\(\);", "ST.error_set = 0;", ">=0"),
                (r"\}\s*$", "", 1)],
      "dropped": ["the text of the diagnostic (the error string show_title / mount_fs produced)"]})
+
+# ---- driveselector.cc (C15): assigning a VolumeSelector replaces drive AND volume letter ---------------------------------------
+add({"name": "VolumeSelector_assign", "file": "dfs/driveselector.cc", "anchor": r"VolumeSelector& VolumeSelector::operator=\(const VolumeSelector& v\)",
+     "sig": "static void VolumeSelector_assign(struct VolumeSelectorM *self, const struct VolumeSelectorM *v)",
+     "rules": [(r"if \(v\.(\w+_)\)", r"if (v->\1.has)", ">=0"), (r"\b(\w+_) = v\.(\w+_);", r"self->\1 = v->\2;", ">=1"), (r"return \*this;", "return;", 1)]})
+# ---- storage.cc (C16 "--show-config reports this assignment"): which drive numbers the listing covers -----------------------
+add({"name": "SurfaceSelector_postincrement", "file": "dfs/driveselector.h", "anchor": r"SurfaceSelector postincrement\(\)",
+     "sig": "static unsigned int SurfaceSelector_postincrement(unsigned int *d_p)",
+     "rules": [(r"SurfaceSelector clone\(d_\);", "const unsigned int clone = *d_p;", 1), (r"\+\+d_;", "++*d_p;", 1)]})
+add({"name": "acorn_default_last_surface", "file": "dfs/driveselector.cc", "anchor": r"SurfaceSelector SurfaceSelector::acorn_default_last_surface\(\)",
+     "sig": "static unsigned int acorn_default_last_surface(void)", "rules": [(r"return SurfaceSelector\((\w+)\);", r"return \1;", 1)]})
+add({"name": "show_config_range", "file": "dfs/storage.cc",
+     "anchor": r"drive_number loop_limit = DFS::SurfaceSelector::acorn_default_last_surface\(\);", "region_end": r"\}\s*std::unique_ptr<DFS::FileSystem> StorageConfiguration::mount_fs",
+     "sig": "static void show_config_range(const struct DrivesM *drives_)",
+     "rules": [(r"drive_number loop_limit = DFS::SurfaceSelector::acorn_default_last_surface\(\);", "unsigned int loop_limit = acorn_default_last_surface();", 1),
+               (r"drives_\.empty\(\)", "(drives_->n == 0)", ">=0"), (r"drives_\.size\(\)", "drives_->n", ">=0"),
+               (r"drives_\.rbegin\(\)->first", "drives_->max_key", ">=0"), (r"loop_limit\.surface\(\)", "loop_limit", ">=0"),
+               (r"std::max\(", "umax_(", ">=0"),
+               (r"drive_number i\(0\);", "unsigned int i = 0;", 1),
+               (r"\bshow\(i\);", "show_model(i);", 1),
+               (r"\bdo\b(\s*\{)", r"do SHOW_CONFIG_LOOP_CONTRACT\1", 1),
+               (r"i\.postincrement\(\)", "SurfaceSelector_postincrement(&i)", 1)],
+     "dropped": ["the per-drive line (the show lambda): recording model"]})
+# ---- dfs_filesystem.cc (C14): what get_sector_map puts into the sector map ----------------------------------------------
+add({"name": "get_sector_map", "file": "dfs/dfs_filesystem.cc", "anchor": r"std::unique_ptr<SectorMap> FileSystem::get_sector_map\(const SurfaceSelector& surface\) const",
+     "sig": "static void get_sector_map(const struct FileSystemS *self, unsigned int surface)",
+     "rules": [(r"std::unique_ptr<SectorMap> result =\s*std::make_unique<SectorMap>\(([^;]*)\);", r"sector_map_new(\1);", 1),
+               (r"volumes_\.size\(\)", "self->volumes_n", ">=0"),
+               (r"for \(const auto& vol : volumes_\)", "for (size_t vi_ = 0; vi_ < self->volumes_n; ++vi_) SECTOR_MAP_LOOP_CONTRACT", 1),
+               (r"DFS::VolumeSelector volsel\(surface\);", "struct VolSelS volsel = { surface, 0, 0 };", 1),
+               (r"if \(vol\.first\)", "if (h_vols[vi_].has_letter)", 1),
+               (r"volsel = DFS::VolumeSelector\(surface, \*vol\.first\);", "{ volsel.surface = surface; volsel.has_sub = 1; volsel.sub = h_vols[vi_].letter; }", 1),
+               (r"vol\.second->map_sectors\(volsel, result\.get\(\)\);", "volume_map_sectors_model(vi_, volsel);", 1),
+               (r"disc_format\(\) == Format::(\w+)", r"self->format == Format_\1", ">=0"),
+               (r"auto disc_catalogue = internal::OpusDiscCatalogue::get_catalogue\(media_, geometry\(\)\);\s*disc_catalogue\.map_sectors\(result\.get\(\)\);", "opus_disc_catalogue_map_model();", 1),
+               (r"return result;", "return;", 1)],
+     "dropped": ["the SectorMap object (recording model)"]})
 
 # ---- commands.cc (C01: name lookup -> mount -> body): body_command, the shared back end of type / list / dump -----------------
 add({"name": "body_command", "file": "dfs/commands.cc",
@@ -1408,10 +1457,13 @@ add({"name": "HxcAdapter_read_block", "file": "dfs/img_hxcmfm.cc",
 add({"name": "HfeAdapter_find_sector", "file": "dfs/img_hfe.cc",
      "anchor": r"std::vector<Sector>::const_iterator find_sector\(const SectorAddress& want\) const",
      "sig": "static size_t HfeAdapter_find_sector(const struct FluxAdapter *self, const struct SectorAddress *want)",
-     "rules": [(r"std::vector<Sector>::const_iterator it = sectors_\.cbegin\(\);", "size_t it = 0;", 1),
-               (r"it != sectors_\.cend\(\)", "it != self->sectors_n", 1),
-               (r"it->address == want", "SectorAddress_eq(&self->sectors_[it].address, want)", 1),
-               (r"(while \(it != self->sectors_n\))", r"\1 FIND_LOOP_CONTRACT", 1)]})
+     "rules": [(r"std::vector<Sector>::const_iterator it = sectors_\.cbegin\(\);", "size_t it = 0;", ">=0"),
+               (r"it != sectors_\.cend\(\)", "it != self->sectors_n", ">=0"),
+               (r"it->address == want", "SectorAddress_eq(&self->sectors_[it].address, want)", ">=0"),
+               (r"(while \(it != self->sectors_n\))", r"\1 FIND_LOOP_CONTRACT", ">=0"),
+               # a binary search over the (address-sorted) list: std::lower_bound with the address order as its comparison
+               (r"std::lower_bound\(sectors_\.cbegin\(\), sectors_\.cend\(\), want,\s*\[\]\(const Sector& s, const SectorAddress& a\)\s*\{\s*return s\.address < a;\s*\}\)",
+                "flux_lower_bound_model(self, want)", "=0or1")]})
 add({"name": "HfeAdapter_read_block", "file": "dfs/img_hfe.cc",
      "anchor": r"std::optional<DFS::SectorBuffer> read_block\(unsigned long lba\) override",
      "sig": "static opt_SectorBuffer HfeAdapter_read_block(struct FluxAdapter *self, unsigned long lba)",
